@@ -40,26 +40,51 @@ def mk_region_case(rng):
     with warnings.catch_warnings():
         warnings.simplefilter('ignore')
         wh = WCSHelper.from_header(h)
-    depth = rng.choice([5, 6, 7, 8])
+    depth = rng.choice([5, 6, 7, 8, 9])
     reg = Region(maxdepth=depth)
     # a circle centred on a random image pixel, radius of a few pixels
     x, y = rng.uniform(1, C), rng.uniform(1, R)
     ra, dec = wh.wcs.wcs_pix2world([[x, y]], 1)[0]
-    rad = cdelt * rng.uniform(0.6, max(R, C) * 0.6)
-    reg.add_circles(np.radians(ra), np.radians(dec), np.radians(rad))
-    if rng.random() < 0.1:
-        reg = Region(maxdepth=depth)
+    rad = cdelt * rng.uniform(0.6, max(R, C) * 0.4)
+    kind = rng.choice(['deep', 'deep', 'coarse', 'union', 'pixels', 'all'])
+    if kind == 'deep':
+        reg.add_circles(np.radians(ra), np.radians(dec), np.radians(rad))
+    elif kind == 'coarse':
+        # inserted at a coarser level: levels between it and maxdepth stay empty
+        reg.add_circles(np.radians(ra), np.radians(dec), np.radians(rad), depth=max(1, depth - rng.randint(1, 3)))
+    elif kind == 'union':
+        reg.add_circles(np.radians(ra), np.radians(dec), np.radians(rad * 0.5))
+        other = Region(maxdepth=max(1, depth - rng.randint(1, 3)))
+        x2, y2 = rng.uniform(1, C), rng.uniform(1, R)
+        ra2, dec2 = wh.wcs.wcs_pix2world([[x2, y2]], 1)[0]
+        other.add_circles(np.radians(ra2), np.radians(dec2), np.radians(rad * 0.7))
+        reg.union(other, renorm=rng.random() < 0.5)
+    elif kind == 'pixels':
+        import healpy as hp
+        d = max(1, depth - rng.randint(0, 3))
+        pix = hp.query_disc(2 ** d, hp.ang2vec(np.pi / 2 - np.radians(dec), np.radians(ra)), np.radians(rad), inclusive=True, nest=True)
+        reg.add_pixels(pix, d)          # raw, not renormalised
+    else:
         reg.add_circles(np.radians(ra), np.radians(dec), np.radians(60.0))   # covers the whole image
-    # tabulate inside(x, y) for FITS pixels over [0, C+1] x [0, R+1]
+    # tabulate inside(x, y) for FITS pixels over [0, C+1] x [0, R+1] INDEPENDENTLY of Region.sky_within:
+    # position from the WCS, deepest-level pixel from healpy, membership in the pixel set expanded from pixeldict here
+    import copy
+    import healpy as hp
     pts = [(xx, yy) for yy in range(0, R + 2) for xx in range(0, C + 2)]
     sky = wh.wcs.wcs_pix2world(pts, 1)
-    ins = reg.sky_within(sky[:, 0], sky[:, 1], degin=True)
+    deep = set()
+    for d, ps in copy.deepcopy(reg.pixeldict).items():
+        k = 4 ** (depth - d)
+        for p in ps:
+            deep.update(range(int(p) * k, (int(p) + 1) * k))
+    ipix = hp.ang2pix(2 ** depth, np.pi / 2 - np.radians(sky[:, 1]), np.radians(sky[:, 0]), nest=True)
+    ins = [int(q) in deep for q in ipix]
     table = {p for p, b in zip(pts, ins) if b}
     # hypothesis validation: origin convention of wcs_pix2world
     s0 = wh.wcs.wcs_pix2world([(p[0] - 1, p[1] - 1) for p in pts[:20]], 0)
     conv_ok = bool(np.allclose(s0, sky[:20], rtol=0, atol=1e-10))
     return case, wh, reg, table, conv_ok, {'shape': [R, C], 'proj': proj, 'crval': crval, 'cdelt': cdelt, 'crpix': crpix,
-                                            'depth': depth, 'circle': [float(ra), float(dec), float(rad)]}
+                                            'depth': depth, 'circle': [float(ra), float(dec), float(rad)], 'kind': kind, 'region': {str(d): sorted(int(p) for p in ps) for d, ps in reg.pixeldict.items() if ps}}
 
 
 def run(ctx, model_ok=True):
@@ -71,7 +96,7 @@ def run(ctx, model_ok=True):
                 '"unrestricted islands filtered by own-pixel membership". distinct = distinct (image, wcs, region); non-trivial = '
                 'the region keeps some but not all islands.')
     exprs, impls, metas = [], [], []
-    n = 120 if quick else 3000
+    n = 240 if quick else 3000
     conv = 0
     t0 = time.time()
     for k in range(n):
@@ -158,15 +183,22 @@ def replay(ctx, obj):
     h = make_header(tuple(m['shape']), proj=m['proj'], crval=m['crval'], cdelt=m['cdelt'], crpix=m['crpix'])
     wh = WCSHelper.from_header(h)
     reg = Region(maxdepth=m['depth'])
-    ra, dec, rad = m['circle']
-    reg.add_circles(np.radians(ra), np.radians(dec), np.radians(rad))
+    for d, ps in m.get('region', {}).items():
+        reg.add_pixels(ps, int(d))
     R, C = m['shape']
     got = ic.run_impl(case, region=reg, wcs=wh)
     free = ic.run_impl(case)
+    import healpy as hp
+    deep = set()
+    for d, ps in m.get('region', {}).items():
+        k = 4 ** (m['depth'] - int(d))
+        for p in ps:
+            deep.update(range(p * k, (p + 1) * k))
     exp = []
     for isl in free:
         sky = wh.wcs.wcs_pix2world([(c + 1, r + 1) for r, c in isl[1]], 1)
-        if np.any(reg.sky_within(sky[:, 0], sky[:, 1], degin=True)):
+        ipix = hp.ang2pix(2 ** m['depth'], np.pi / 2 - np.radians(sky[:, 1]), np.radians(sky[:, 0]), nest=True)
+        if any(int(q) in deep for q in ipix):
             exp.append(isl)
     print('with region:', got)
     print('expected   :', exp)
